@@ -7,9 +7,10 @@ import NautilusVerif.Driver.Prior
 import NautilusVerif.Driver.ResampleD
 import NautilusVerif.Driver.UnionD
 import NautilusVerif.Driver.CoreD
+import NautilusVerif.Driver.CrashD
 open NautilusVerif
 
-def handlers : List (List String → Option String) := [ShiftDriver.handle, PriorDriver.handle, ResampleDriver.handle, UnionDriver.handle, CoreDriver.handle]
+def handlers : List (List String → Option String) := [ShiftDriver.handle, PriorDriver.handle, ResampleDriver.handle, UnionDriver.handle, CoreDriver.handle, CrashDriver.handle]
 
 def step (line : String) : String :=
   let ws := (line.trimAscii.toString.splitOn " ").filter (· ≠ "")
